@@ -23,13 +23,14 @@ def build(asm_expanded):
     # ------------------------------------------------------------------ crate root (lib.rs)
     root = u.module('', file='crates/vm/src/lib.rs', uses='''pub use crate::stack::Stack; pub use crate::memory::Memory; pub use crate::repeat::Repeat;
 pub use crate::essential_asm as asm; pub use crate::essential_asm::Op; pub use crate::essential_types as types;
-pub use crate::total_control_flow::ProgramControlFlow;''')
+pub use crate::total_control_flow::ProgramControlFlow; pub use crate::state_read::{StateRead, StateReads};''')
     root.item('type Gas')
     root.item('struct GasLimit')
     # ------------------------------------------------------------------ essential-types
     ty = u.module('essential_types', file='crates/types/src/lib.rs', uses='')
-    for t in ('type Word', 'type Key', 'type Value', 'type Hash', 'struct ContentAddress', 'struct PredicateAddress'):
+    for t in ('type Word', 'type Key', 'type Value', 'type Hash', 'struct PredicateAddress'):
         ty.item(t)
+    ty.item('struct ContentAddress', assumed_clone=True)
     conv = u.module('convert', file='crates/types/src/convert.rs', parent=ty, uses='use crate::essential_types::*;')
     conv.spec('''pub uninterp spec fn spec_word_4_from_u8_32(b: [u8; 32]) -> [i64; 4];
 pub uninterp spec fn spec_u8_32_from_word_4(w: [i64; 4]) -> [u8; 32];
@@ -349,7 +350,8 @@ use crate::essential_types::convert::bool_from_word; use crate::*; broadcast use
 
     # ------------------------------------------------------------------ sync dispatchers
     sy = u.module('sync', file='crates/vm/src/sync.rs', uses="""
-use crate::{alu, asm, error::{OpError, OpResult, ParentMemoryError, err_plain}, pred, repeat, total_control_flow, Memory, ProgramControlFlow, Repeat, Stack};
+use crate::{alu, asm, error::{OpError, OpResult, ParentMemoryError, err_plain}, pred, repeat, total_control_flow, Memory, ProgramControlFlow, Repeat, Stack, StateReads, state_read::StateRead};
+use crate::essential_types::ContentAddress;
 use crate::essential_asm; use crate::essential_types::Word; use crate::*; use std::sync::Arc;
 broadcast use {crate::spec_from_is_from, crate::iter_items_array, crate::iter_items_vec};""")
     sy.spec("""
@@ -470,6 +472,12 @@ pub open spec fn sp_memory(op: asm::Memory, s: Seq<i64>, m: Seq<i64>) -> Option<
 use crate::error::{MemoryError, OpError, OpResult, StackError, StateReadArgError, err_plain}; use crate::{Memory, Stack};
 use crate::essential_types::{convert::u8_32_from_word_4, ContentAddress, Key, Value, Word}; use crate::*;
 broadcast use crate::spec_from_is_from;""")
+    sr.spec('''
+pub open spec fn read_outcome<E>(res: Result<Seq<Seq<i64>>, E>, r: Result<(), OpError<E>>, m0: Seq<i64>, m1: Seq<i64>, addr: int) -> bool {
+    match res { Err(e) => r matches Err(e2) && e2 == OpError::<E>::StateRead(e),
+                Ok(vals) => if crate::layout_fits(m0, addr, vals) { r is Ok && m1 =~= crate::layout_k(m0, addr, vals, vals.len() as int) }
+                            else { r matches Err(e) && err_plain(e) } } }
+''')
     sr.trait('trait StateRead', [F('key_range', ensures="""match self.spec_key_range(contract_addr, key@, num_values) {
             Ok(vs) => r is Ok && r->Ok_0.deep_view() == vs, Err(e) => r == Err::<Vec<Vec<Word>>, Self::Error>(e) }""", props=('C11',))],
              extra='    spec fn spec_key_range(&self, contract_addr: ContentAddress, key: Seq<i64>, num_values: usize) -> Result<Seq<Seq<i64>>, Self::Error>;')
@@ -505,4 +513,52 @@ broadcast use crate::spec_from_is_from;""")
             crate::val_addr(mem_addr0 as int, values.deep_view(), it.index@ as int) <= memory@.len() || it.index@ == 0,
             memory@ =~= crate::layout_k(old(memory)@, mem_addr0 as int, values.deep_view(), it.index@ as int)"""}},
         props=('C05', 'C11')))
+
+    SR_MAP = ('R7', '.map_err(OpError::StateRead)', '.map_err(|e: S::Error| -> (o: OpError<S::Error>) ensures o == OpError::<S::Error>::StateRead(e) { OpError::StateRead(e) })')
+    RD_ENS = """stack_wf(final(stack)@),
+            match crate::sp_key_args(old(stack)@) {
+                None => r matches Err(e) && err_plain(e),
+                Some((key, n, rest)) => %s }"""
+    sr.fn('read_key_range', F('read_key_range', requires=SW, ensures=RD_ENS % """final(stack)@ =~= rest &&
+                    match state_read.spec_key_range(*contract_addr, key, n as usize) {
+                        Ok(vals) => r is Ok && r->Ok_0.deep_view() == vals,
+                        Err(e) => r matches Err(e2) && e2 == OpError::<S::Error>::StateRead(e) }""",
+        rewrites=[SR_MAP], props=('C05', 'C11')))
+    sr.fn('read_key_range_ext', F('read_key_range_ext', requires=SW, ensures=RD_ENS % """
+                    if rest.len() < 4 { r matches Err(e) && err_plain(e) } else {
+                        final(stack)@ =~= rest.take(rest.len() - 4) &&
+                        exists|a: [i64; 4]| a@ == rest.skip(rest.len() - 4) &&
+                        match state_read.spec_key_range(ContentAddress(crate::essential_types::convert::spec_u8_32_from_word_4(a)), key, n as usize) {
+                            Ok(vals) => r is Ok && r->Ok_0.deep_view() == vals,
+                            Err(e) => r matches Err(e2) && e2 == OpError::<S::Error>::StateRead(e) } }""",
+        rewrites=[SR_MAP], props=('C05', 'C11')))
+    KR_ENS = """stack_wf(final(stack)@), mem_wf(final(memory)@), final(memory)@.len() == old(memory)@.len(),
+            match crate::sp_read_args(old(stack)@) {
+                None => r matches Err(e) && err_plain(e),
+                Some((key, n, addr, rest)) => %s }"""
+    LAY = "crate::state_read::read_outcome(%s, r, old(memory)@, final(memory)@, addr)"
+    sr.fn('key_range', F('key_range', requires=SW + ', mem_wf(old(memory)@)', ensures=KR_ENS % ("final(stack)@ =~= rest && " + LAY % 'state_read.spec_key_range(*contract_addr, key, n as usize)'),
+          props=('C05', 'C11')))
+    sr.fn('key_range_ext', F('key_range_ext', requires=SW + ', mem_wf(old(memory)@)', ensures=KR_ENS % ("""
+                    if rest.len() < 4 { r matches Err(e) && err_plain(e) } else {
+                        final(stack)@ =~= rest.take(rest.len() - 4) &&
+                        exists|a: [i64; 4]| a@ == rest.skip(rest.len() - 4) && """ + LAY % 'state_read.spec_key_range(ContentAddress(crate::essential_types::convert::spec_u8_32_from_word_4(a)), key, n as usize)' + " }"),
+          props=('C05', 'C11')))
+    sy.fn('step_op_state_reads', F('step_op_state_reads', requires=SW + ', mem_wf(old(memory)@)', ensures="""
+            stack_wf(final(stack)@), mem_wf(final(memory)@), final(memory)@.len() == old(memory)@.len(),
+            match crate::sp_read_args(old(stack)@) {
+                None => r matches Err(e) && err_plain(e),
+                Some((key, n, addr, rest)) => ({
+                    let ext = op is KeyRangeExtern || op is PostKeyRangeExtern;
+                    let post = op is PostKeyRange || op is PostKeyRangeExtern;
+                    if ext && rest.len() < 4 { r matches Err(e) && err_plain(e) }
+                    else if ext { final(stack)@ =~= rest.take(rest.len() - 4) && exists|a: [i64; 4]| a@ == rest.skip(rest.len() - 4) &&
+                        crate::state_read::read_outcome(
+                            if post { state.spec_post().spec_key_range(ContentAddress(crate::essential_types::convert::spec_u8_32_from_word_4(a)), key, n as usize) }
+                            else { state.spec_pre().spec_key_range(ContentAddress(crate::essential_types::convert::spec_u8_32_from_word_4(a)), key, n as usize) },
+                            r, old(memory)@, final(memory)@, addr) }
+                    else { final(stack)@ =~= rest && crate::state_read::read_outcome(
+                            if post { state.spec_post().spec_key_range(*contract_addr, key, n as usize) } else { state.spec_pre().spec_key_range(*contract_addr, key, n as usize) },
+                            r, old(memory)@, final(memory)@, addr) } }) }""",
+          props=('C05', 'C11', 'C03')))
     return u
